@@ -592,6 +592,38 @@ example : Custom.decodeScidMsg replyChannelRangeRules Custom.replyRangeHeader (L
 example : Custom.decodeScidMsg replyChannelRangeRules Custom.replyRangeHeader (List.replicate 32 7 ++ [0, 0, 0, 1, 0, 0, 0, 2, 2, 0, 1, 0]) =
     .error .InvalidValue := by decide   -- sync_complete is a bool
 
+/-- the theorems above instantiated for the four concrete messages: round trip on well-formed values, and every accepted byte string
+    is (a prefix-)canonical encoding of a well-formed value -/
+theorem unsigned_node_announcement_codec :
+    (∀ m : Custom.NodeAnn, m.wf sockAddrKinds Custom.nodeAnnHeader = true →
+      Custom.decodeNodeAnn sockAddrKinds Custom.nodeAnnHeader (Custom.encodeNodeAnn sockAddrKinds Custom.nodeAnnHeader m) = .ok m) ∧
+    (∀ b m, Custom.decodeNodeAnn sockAddrKinds Custom.nodeAnnHeader b = .ok m →
+      Custom.encodeNodeAnn sockAddrKinds Custom.nodeAnnHeader m = b ∧ m.wf sockAddrKinds Custom.nodeAnnHeader = true) :=
+  ⟨fun m hm => node_ann_roundtrip _ custom_headers_ok.1 m hm, fun b m h => node_ann_decode_canonical _ custom_headers_ok.1 b m h⟩
+
+theorem node_announcement_codec :
+    (∀ m : Custom.NodeAnn, m.wf sockAddrKinds Custom.nodeAnnSignedHeader = true →
+      Custom.decodeNodeAnn sockAddrKinds Custom.nodeAnnSignedHeader (Custom.encodeNodeAnn sockAddrKinds Custom.nodeAnnSignedHeader m) = .ok m) ∧
+    (∀ b m, Custom.decodeNodeAnn sockAddrKinds Custom.nodeAnnSignedHeader b = .ok m →
+      Custom.encodeNodeAnn sockAddrKinds Custom.nodeAnnSignedHeader m = b ∧ m.wf sockAddrKinds Custom.nodeAnnSignedHeader = true) :=
+  ⟨fun m hm => node_ann_roundtrip _ custom_headers_ok.2.1 m hm, fun b m h => node_ann_decode_canonical _ custom_headers_ok.2.1 b m h⟩
+
+theorem query_short_channel_ids_codec :
+    (∀ (m : Custom.ScidMsg) (rest : Bytes), m.wf Custom.queryScidHeader = true →
+      Custom.decodeScidMsg queryShortChannelIdsRules Custom.queryScidHeader (Custom.encodeScidMsg queryShortChannelIdsRules Custom.queryScidHeader m ++ rest) = .ok (m, rest)) ∧
+    (∀ b m rest, Custom.decodeScidMsg queryShortChannelIdsRules Custom.queryScidHeader b = .ok (m, rest) →
+      b = Custom.encodeScidMsg queryShortChannelIdsRules Custom.queryScidHeader m ++ rest ∧ m.wf Custom.queryScidHeader = true) :=
+  ⟨fun m rest hm => scid_list_roundtrip _ scid_rules_spec.1 _ custom_headers_ok.2.2.1 m hm rest,
+   fun b m rest h => scid_list_decode_canonical _ scid_rules_spec.1 _ custom_headers_ok.2.2.1 b m rest h⟩
+
+theorem reply_channel_range_codec :
+    (∀ (m : Custom.ScidMsg) (rest : Bytes), m.wf Custom.replyRangeHeader = true →
+      Custom.decodeScidMsg replyChannelRangeRules Custom.replyRangeHeader (Custom.encodeScidMsg replyChannelRangeRules Custom.replyRangeHeader m ++ rest) = .ok (m, rest)) ∧
+    (∀ b m rest, Custom.decodeScidMsg replyChannelRangeRules Custom.replyRangeHeader b = .ok (m, rest) →
+      b = Custom.encodeScidMsg replyChannelRangeRules Custom.replyRangeHeader m ++ rest ∧ m.wf Custom.replyRangeHeader = true) :=
+  ⟨fun m rest hm => scid_list_roundtrip _ scid_rules_spec.2 _ custom_headers_ok.2.2.2 m hm rest,
+   fun b m rest h => scid_list_decode_canonical _ scid_rules_spec.2 _ custom_headers_ok.2.2.2 b m rest h⟩
+
 /-! ### Init -/
 
 /-- the Init schema IS what the reader / writer bodies declare: two feature vectors, TLV 1 `networks` (ChainHashes to the end of the
